@@ -18,14 +18,17 @@ def _case(args):
     nulls = rng.choice(nulls_opt)
     tables = gen.make_tables(rng, nrows=rng.choice([5, 8, 12]), nulls=nulls)
     g = gen.ProgGen(rng, profile=profile, max_steps=rng.randint(1, 6))
-    prog = g.generate({"t0": list(tables["t0"].columns)})
+    tabcols = {"t0": list(tables["t0"].columns)}
+    if profile == "l3":
+        tabcols["t1"] = list(tables["t1"].columns)
+    prog = g.generate(tabcols)
     layout = {"t0": rng.choice([("npartitions", 1), ("npartitions", 2), ("npartitions", 3), ("npartitions", 4), ("unknown", 3), ("cuts", sorted(rng.sample(range(0, len(tables["t0"]) + 1), 2)))])}
     out = {"idx": idx, "desc": gen.describe(prog), "layout": layout, "nulls": nulls, "nsteps": len(prog["steps"]), "vio": [], "steps": [], "skipped": {}, "fired": {}}
     if with_steps:
         steplog.install()
         del steplog.LOG[:]
     try:
-        vio, stats = e2e.check_program(prog, {"t0": tables["t0"]}, layout, rt, props)
+        vio, stats = e2e.check_program(prog, {t: tables[t] for t in tabcols}, layout, rt, props)
     except Exception:
         import traceback
         out["vio"] = [{"prop": "HARNESS", "what": traceback.format_exc()[-800:]}]
@@ -120,6 +123,11 @@ def validate_steps(run, steps_all, skipped):
                 # the verified checker accepts the step but the real system computes different results for the two plans:
                 # the model's semantics of some operator is wrong (broken tie, the step itself is the replay)
                 run.broken_tie("den-vs-implementation on an accepted step", {"rule": key, "parent": s["p"][:300], "result": s["r"][:300], "exec": s["agree"]})
+        elif or_factoring_step(m, s["p"], s["r"]):
+            acc["%s:S11(or-factoring, theorem or_factoring_sound)" % key] += 1
+            if s["agree"] is not None:
+                run.violation("OR-factoring step changes the result: before %s, after %s [program: %s]" % (s["agree"]["parent"], s["agree"]["result"], r["desc"]),
+                              {"kind": "step", "rule": key, "parent": s["p"], "result": s["r"], "program": r["desc"]})
         else:
             rej[key] += 1
             must = (s["rule"], s["parent_class"]) in steplog.MUST_ACCEPT
@@ -134,3 +142,31 @@ def validate_steps(run, steps_all, skipped):
     undersampled = [k for k, v in acc.items() if v < 20]
     return {"steps_checked": len(reqs), "accepted_by_schema": dict(acc.most_common()), "unmatched_in_fragment": dict(rej.most_common()),
             "out_of_fragment_skipped": dict(skipped.most_common(15)), "undersampled": undersampled, "must_accept_rejections": broken}
+
+
+def _filter_of(t):
+    """(outer context as a function, frame, predicate) for P[Filter x p] with P in {identity, proj c, projs c}."""
+    if isinstance(t, list) and t and t[0] in ("proj", "projs") and isinstance(t[1], list) and t[1] and t[1][0] == "filter":
+        return (t[0], t[2]), t[1][1], t[1][2]
+    if isinstance(t, list) and t and t[0] == "filter":
+        return None, t[1], t[2]
+    return None
+
+
+def or_factoring_step(model, p_sx, r_sx):
+    """parent = P[Filter x p], result = P[Filter x p'] with p' = rewrite_filters p (checked with the proved model on the
+    And/Or skeleton: atoms = maximal sub-terms that are not bin and / bin or, identified structurally)."""
+    from common import parse_sx, sx
+    a, b = _filter_of(parse_sx(p_sx)), _filter_of(parse_sx(r_sx))
+    if not a or not b or a[0] != b[0] or a[1] != b[1]:
+        return False
+    atoms = {}
+
+    def skel(t):
+        if isinstance(t, list) and len(t) == 4 and t[0] == "bin" and t[1] in ("and", "or"):
+            return "(%s %s %s)" % (t[1], skel(t[2]), skel(t[3]))
+        k = sx(t)
+        return "(a %d)" % atoms.setdefault(k, len(atoms))
+    sp = skel(a[2])
+    sr = skel(b[2])
+    return model.batch(["(rewrite_filters %s)" % sp])[0] == sr and sp != sr
